@@ -192,6 +192,8 @@ class Tr:
                 return 'size_zero', ('Size', F)
             if segs == ['None']:
                 return 'None', Opt('?')
+            if segs == ['Size', 'NONE']:
+                return '(mkSize None None)', ('Size', Opt('?'))
             raise Refuse('unknown name %s' % '::'.join(segs))
         if k == 'field':
             r, t = self.e(a[1])
@@ -504,6 +506,9 @@ class Tr:
                         return '(size_zip2 %s_%s%s %s %s)' % (nm, tcode(it), tcode(xt[1]), r, x), ('Size', out)
                 if it in (F, OF) and nm == 'maybe_clamp' and n == 2:
                     (x, xt), (y, yt) = self.e(args[0]), self.e(args[1])
+                    xt = yt = join(xt, yt)
+                    if xt[0] == 'Size' and xt[1] == Opt('?'):
+                        xt = yt = ('Size', OF)
                     if xt == yt and xt[0] == 'Size' and xt[1] in (F, OF):
                         return '(size_zip3 maybe_clamp_%s%s%s %s %s %s)' % (tcode(it), tcode(xt[1]), tcode(xt[1]), r, x, y), ('Size', it)
         if isinstance(t, tuple) and t[0] == 'enum' and t[1] == 'FlexDirection' and nm == 'is_row' and n == 0:
@@ -1279,6 +1284,15 @@ def generate(repo):
         d[f] = r
     w(emit_def('grid_abs_area', [('container_border_box', '(Size T)'), ('border', '(Rect T)'), ('scrollbar_gutter', '(Point T)')], [],
                '(mkRect %s %s %s %s)' % (d['left'], d['right'], d['top'], d['bottom']), '(Rect T)'))
+    # fingerprints of the functions the hand-written parts transcribe (Model/AbsPosBase.v, Model/AbsPos.v, Model/AbsPosRun.v)
+    for rel, fns in [('src/compute/flexbox.rs', ['compute_constants']), ('src/compute/leaf.rs', ['compute_leaf_layout']),
+                     ('src/compute/block.rs', ['perform_final_layout_on_in_flow_children']), ('src/style/dimension.rs', ['resolve_to_option']),
+                     ('src/compute/mod.rs', ['compute_root_layout'])]:
+        toks = tokenize(read(repo, rel))
+        for fn in fns:
+            fps['hand::%s::%s' % (rel.split('/')[-1], fn)] = norm_tokens(find_fn(toks, fn)[1])
+    src = read(repo, 'src/util/resolve.rs')
+    fps['hand::resolve.rs'] = norm_tokens(tokenize(src.split('#[cfg(test)]')[0]))
     out.append('End AbsPosGen.')
     return '\n'.join(out) + '\n', fps
 
